@@ -62,6 +62,8 @@ def poisoned(byte):
 
 
 acc_kinds = st.sampled_from([
+    {"type": "sharded", "strategy": "in memory", "bits": [1, 1, 0]},
+    {"type": "sharded", "strategy": "on disk", "bits": [0, 2, 1]},
     {"type": "file", "flat": False, "gzip": True, "compresslevel": 1},
     {"type": "file", "flat": True, "gzip": False},
     {"type": "file", "flat": False, "gzip": False},
@@ -118,7 +120,25 @@ def hand_cases(draw):
     return c
 
 
+def effective_acc(case, info):
+    """Sharded storage needs cubic chunks: fall back to files otherwise."""
+    acc = case["acc"]
+    if acc["type"] == "sharded" and any(
+            len(set(s["chunk_sizes"][0])) != 1 for s in info["scales"]):
+        return {"type": "file", "flat": False, "gzip": False}
+    return acc
+
+
 def build_info(case):
+    info = _build_info(case)
+    acc = effective_acc(case, info)
+    if acc["type"] == "sharded":
+        for s in info["scales"]:
+            s["sharding"] = ds.sharding_dict(*acc["bits"])
+    return info
+
+
+def _build_info(case):
     from neuroglancer_scripts import dyadic_pyramid
     block = case["block"] if case["encoding"] == \
         "compressed_segmentation" else None
@@ -164,7 +184,8 @@ def check_case(ctx, case):
     base = ctx.tmpdir("pyr")
     try:
         src = os.path.join(base, "src")
-        pio = ds.new_dataset(info, case["acc"], src)
+        acc = effective_acc(case, info)
+        pio = ds.new_dataset(info, acc, src)
         vol = make_volume(case, info)
         ds.write_scale(pio, scales[0], vol)
         ds.close_accessor(pio)
@@ -178,7 +199,9 @@ def check_case(ctx, case):
         for name, byte in (("a", 0x5A), ("b", 0xA5)):
             d = os.path.join(base, name)
             shutil.copytree(src, d)
-            pio2 = ds.open_dataset(d, dict(case["acc"]))
+            pio2 = ds.open_dataset(d, {k: v for k, v in acc.items()
+                                       if k in ("flat", "gzip",
+                                                "compresslevel")})
             downscaler = downscaling.get_downscaler(case["method"],
                                                     pio2.info, opts)
             err = None
@@ -264,7 +287,8 @@ def run_mode(strategy):
             r = check_case(ctx, case)
             ctx.record(case, nontrivial(case) and not r["error"], [
                 case["method"], case["dtype"], case["encoding"],
-                "flat" if case["acc"].get("flat") else "deep",
+                "acc." + effective_acc(case, _build_info(case))["type"] + (
+                    ".flat" if case["acc"].get("flat") else ""),
                 "error" if r["error"] else "computed",
                 "envelope" if r["envelope"] else "outside_envelope"])
         ctx.run_hypothesis(strategy, check, n)
